@@ -113,6 +113,12 @@ def r8_recognition_order(ctx, pf, rule="C15.R8"):
         ids, raw_may_be_str = st
         if n.kind == "test":
             if label == "false":
+                t_ = n.ast
+                if isinstance(t_, ast.BoolOp) and isinstance(t_.op, ast.And) and len(t_.values) == 2 and unparse(t_.values[0]) == ACT:
+                    # `actions and any(x is a for a in actions)`: false means no offered objects at all, or none of them is x
+                    x = _is_identity_any(t_.values[1], ACT)
+                    if x is not None:
+                        ids = ids | {x}
                 for d in disjuncts(n.ast):
                     x = _is_identity_any(d, ACT)
                     if x is not None:
@@ -145,6 +151,10 @@ def r8_recognition_order(ctx, pf, rule="C15.R8"):
                 x = unparse(c.args[0])
                 ctx.ob(rule, SAF, "SafeLearner.pred_format", c, f"`{call_tail(c)}({x}, ...)` is consulted only after `any({x} is a for a in {ACT})` failed", x in ids,
                        detail={"identity_tested_here": sorted(ids)})
+            if call_name(c) == "isinstance" and len(c.args) == 2 and unparse(c.args[0]) == P and unparse(c.args[1]) in ("dict", "abc.Mapping", "Mapping") and raw is not False:
+                n_h += 1
+                ctx.ob(rule, SAF, "SafeLearner.pred_format", c, f"the dict-hint reading of the raw answer is considered only after `any({P} is a for a in {ACT})` failed "
+                       "(an offered sparse action may have a key named like a hint)", P in ids, detail={"identity_tested_here": sorted(ids)}, stmt="hint after identity")
             if call_name(c) == "len" and c.args and unparse(c.args[0]) == P and raw is not None:
                 # only the raw answer matters: once re-bound (wrapped in a list) len() is about the wrapper
                 n_l += 1
@@ -493,6 +503,7 @@ def _body_of(st):
 
 
 CONTROLS = [
+    ("dict hints read before the identity test", SAF, M.delete_stmt("SafeLearner.pred_format", M.text_has("if actions and any((std_pred is action for action in actions)): return 'AX'")), "C15.R8"),
     ("re-wrapping inherits the probed layout", SAF, M.replace_stmt("SafeLearner.__init__", M.simple_has("self._pred_batch = None"), "self._pred_batch = learner._pred_batch if isinstance(learner, SafeLearner) else None"), "C15.R12"),
     ("column arm keeps the (payload, kwargs) wrapper", SAF, M.replace_expr("SafeLearner._parse_pred", "(pred[0] if len(pred) == 2 else pred[:-1]) if self._pred_kwargs else pred", "pred[:-1] if self._pred_kwargs else pred"), "C15.R11"),
     ("column PMF not transposed", SAF, M.replace_expr("SafeLearner._parse_pred", "pred if self._pred_format.endswith('*') else zip(*pred)", "pred"), "C15.R11"),
